@@ -287,6 +287,17 @@ def c03(tier, seed):
     cross(ck, q, "reload_resettv", "ties", "off_modify", "big_volumes", "big_clock", "long_queue")
     prof = {"discipline": True, "audit_every": 10, "w": {"toggle": 0.5, "resettv": 1.5, "modify": 5, "reload": 0.5}}
     ck.traces_stage("rand_ledger", "record_book", prof, files=8 if q else 64, runs=2 if q else 4, ops=300)
+    # the ledger of a book that is driven by an environment: partial fills and price-only / volume-only modifications of the same
+    # order inside one step, every schedule (what an order has lost other than through the volume modifications the CALLER asked
+    # for equals its logged trades - an instruction must reach the book as it was submitted), and long random runs whose every
+    # processed instruction is audited by the C03 clauses (EnvTrace.tla)
+    env_gen(ck, "gen_env_ledger", kind="env", seeds=8 if q else 32, StepSize=3, Ops=["new", "modify", "step"], Kinds=["L"], Prices=[10, 11],
+            Vols=[1, 2], ModPrices=[-1, 10, 11], ModVolsAbs=[-1, 1, 3], MaxSubmits=3 if q else 4, MaxBatch=2, MaxSteps=2, MaxOrders=2,
+            need=("has_modify", "has_trade", "schedule_matters"), timeout=400 if q else 1800)
+    env_gen(ck, "gen_menv_ledger", kind="menv", seeds=4 if q else 32, Ticks=(1, 1), StepSize=2, Ops=["new", "modify", "step"], Kinds=["L"], Prices=[10, 11],
+            Vols=[1, 2], ModPrices=[10, 11], ModVolsAbs=[-1], MaxSubmits=3, MaxBatch=2, MaxSteps=2, MaxOrders=2,
+            need=("has_modify", "has_trade"), timeout=400 if q else 1800)
+    env_traces(ck, "rand_env_ledger", {"p_modify": 0.35, "nprices": 5, "max_batch": 8, "p_step": 0.15}, files=4 if q else 32, runs=3 if q else 6, ops=160, hook=False)
     python_view(ck, q)
     return ck.finish("model_checking", LEVEL_TEXT, RULE + "histories / events with at least one trade",
                      ("gen_ledger.has_trade", "rand_ledger.events_with_trades"))
